@@ -409,7 +409,7 @@ def inject(ctx):
         every = len(pushes) == 1 and not cycle_without(cf, cl[0][1], cl[0][0], {pushes[0]['block']})
         det = 'iterator %s, public filter %s, one push per iteration %s' % (sty, pub, every)
         okc = bool(sty and re.match(r"^std::iter::Filter<std::slice::Iter<'_, %s>, .*>$" % re.escape(FUNCTION), sty) and pub and every)
-    ctx.ob(['C07', 'C17'], 'R-ITER', 'C07|public-functions-only', okc, 'exactly the public functions of the base are re-exposed, each pushed once: %s' % det, loc(cf.span))
+    ctx.ob(['C07', 'C17', 'C13'], 'R-ITER', 'C07|public-functions-only', okc, 'exactly the public functions of the base are re-exposed, each pushed once: %s' % det, loc(cf.span))
     # body = FunctionBody::field(base_name, original_name); rename format "{}_{}"
     fb = [c for c in cf.calls(lambda r: r['path'] and r['path'].endswith('FunctionBody::field'))]
     okb = False
